@@ -308,6 +308,14 @@ impl FunctionSignature {
                     project.get_pointer_bytesize(),
                 );
                 self.parameters.remove(&return_addr_location);
+                // Also remove all nested parameters that are accessed through the return address,
+                // since the removed location cannot be their parent parameter anymore.
+                let pointer_size = project.get_pointer_bytesize();
+                self.parameters.retain(|location, _| {
+                    !location
+                        .get_all_parent_locations(pointer_size)
+                        .contains(&return_addr_location)
+                });
             }
             _ => (),
         }
